@@ -274,7 +274,7 @@ ProbeEnd(w, tmo) ==
                   /\ updMark' = updMark \ gone
                   /\ killing' = [killing EXCEPT ![w] = @ \ gone]
                   /\ dirty' = IF gone # {} THEN dirty \cup {w} ELSE dirty
-    /\ Ev("none", 0, w) /\ H("probeend", 0, w, IF tmo THEN "timeout" ELSE "")
+    /\ Ev(IF tmo THEN "probetimeout" ELSE "none", 0, w) /\ H("probeend", 0, w, IF tmo THEN "timeout" ELSE "")
     /\ UNCHANGED <<dcvars, q, upd, dontupd, nextq, broken, vmx, sv, ov, bud, kf>>
 
 \* remoteRunner.Start executes on the VM, then starting -> running under the pool lock
@@ -314,7 +314,7 @@ IdleShutdown(w) ==
     /\ \/ wk[w].st = "idle"
        \/ wk[w].st = "booting" /\ ib[w] = "drain"
     /\ wk' = ShutdownWk(w) /\ dirty' = dirty \cup {w}
-    /\ Ev("none", 0, w) /\ H("idleshutdown", 0, w, "")
+    /\ Ev("idleshutdown", 0, w) /\ H("idleshutdown", 0, w, "")
     /\ UNCHANGED <<dcvars, qv, exitedP, probing, killing, broken, vmx, sv, ov, bud, kf>>
 
 \* instance.Destroy succeeds (failures are the steps where it does not happen)
@@ -322,8 +322,9 @@ DestroyOK(w) ==
     /\ wk[w].st = "shutdown" /\ vmx[w].exists
     /\ vmx' = [vmx EXCEPT ![w] = NoVm]
     /\ C!VmGoneEff(w)
+    /\ broken' = broken \ {w}
     /\ Ev("vmgone", 0, w) /\ H("destroyok", 0, w, "")
-    /\ UNCHANGED <<qv, wk, exitedP, probing, dirty, killing, broken, sv, ov, bud, kf>>
+    /\ UNCHANGED <<qv, wk, exitedP, probing, dirty, killing, sv, ov, bud, kf>>
 
 \* pool.sync: the instance is no longer listed; its runners are abandoned (no exited placeholder)
 InstanceGone(w) ==
@@ -459,7 +460,7 @@ RQStart ==
           ELSE IF idleW # {}
           THEN \E w \in idleW :
                  /\ wk' = [wk EXCEPT ![w].st = "running", ![w].starting = @ \cup {c}]
-                 /\ C!StartCallEff(c, ib)
+                 /\ C!StartCallEff(c, C!Bad)
                  /\ last' = [NoLast EXCEPT !.e = "startcall", !.c = c, !.w = w,
                                            !.s = IF q[c].in THEN q[c].state ELSE "absent",
                                            !.p = IF q[c].in THEN q[c].prio ELSE 0]
@@ -615,12 +616,49 @@ NextAtomic == IF InPass THEN PassNext
 \* locked, and no queue refresh that would change nothing - so that walks of bounded length get
 \* somewhere
 NextGen == /\ NextAtomic
-           /\ (~(\E c \in Ctrs : ever[c])) => bud' = bud
+           /\ (ever = {}) => bud' = bud
            /\ (last'.e = "updatomic") => (q' # q \/ exitedP' # exitedP \/ phase' # phase)
 
 Spec == Init /\ [][Next]_vars
 SpecAtomic == Init /\ [][NextAtomic]_vars
 SpecGen == Init /\ [][NextGen]_vars
+
+------------------------------------------------------------------------------
+(* C15: fairness and liveness.  The scheduler loop, the queue refresh, probes, the start and kill  *)
+(* goroutines, API calls, Destroy and the instance list make progress (weak fairness); VMs boot     *)
+(* and crunch-run proceeds (the statement's "a cloud that eventually supplies working instances");  *)
+(* an instance that keeps failing its probes eventually reaches its timeout (strong fairness on the *)
+(* timeout branch of ProbeEnd); idle instances eventually reach TimeoutIdle.                        *)
+Wanted == \E c \in Ctrs : q[c].in /\ q[c].state \in {"Queued", "Locked"} /\ q[c].prio > 0 /\ c \notin RunningKeys
+Fairness ==
+    /\ WF_vars(SchedNext)
+    /\ WF_vars(UpdAtomic) /\ WF_vars(UpdStart) /\ WF_vars(UpdEnd)
+    /\ \A w \in Wk : /\ WF_vars(ProbeStart(w)) /\ WF_vars(ProbeEnd(w, FALSE)) /\ SF_vars(ProbeEnd(w, TRUE))
+                     /\ WF_vars(IdleShutdown(w) /\ ~Wanted) /\ WF_vars(DestroyOK(w)) /\ WF_vars(InstanceGone(w))
+                     /\ SF_vars(VMBoot(w))     \* "a cloud that eventually supplies working instances"
+    /\ \A w \in Wk, c \in Ctrs : /\ WF_vars(StartExec(w, c)) /\ WF_vars(KillTick(w, c))
+                                 /\ WF_vars(ProcSetRunning(w, c)) /\ WF_vars(ProcFinalize(w, c)) /\ WF_vars(ProcEnd(w, c))
+    /\ \A c \in Ctrs : /\ WF_vars(ApiCommit(c)) /\ WF_vars(ApiResp(c))
+                       /\ \A k \in {"lock", "cancel", "kill", "requeue"} : WF_vars(GoStart(c, k))
+
+\* Timing assumption of the liveness configurations: TimeoutIdle is longer than the scheduler needs
+\* to hand a waiting container to an idle instance (no idle shutdown while something is waiting).
+\* ... and TimeoutBooting / TimeoutProbe are longer than a working instance needs to boot / answer
+\* (only instances that have stopped answering run into them).
+NextLive == /\ NextAtomic
+            /\ (last'.e = "idleshutdown" => ~Wanted)
+            /\ (last'.e = "probetimeout" => last'.w \in broken)
+LiveSpec == Init /\ [][NextLive]_vars /\ Fairness
+
+Final(c) == api[c].state \in {"Complete", "Cancelled"}
+\* every container with positive priority ends Complete or Cancelled
+Converges == <>[](\A c \in Ctrs : api[c].prio > 0 => Final(c))
+\* once nothing is left to run every instance is destroyed (no operator hold in these configurations)
+Released == <>[]((\A c \in Ctrs : api[c].prio = 0 \/ Final(c)) => \A w \in Wk : ~vmx[w].exists)
+\* a container left Running or Locked whose process has died does not stay like that
+NotStuck == \A c \in Ctrs : (api[c].state \in {"Locked", "Running"} /\ C!NoProc(c)) ~> (api[c].state \notin {"Locked", "Running"} \/ ~C!NoProc(c))
+\* an instance that does not answer is shut down
+BrokenGoes == \A w \in Wk : (w \in broken) ~> (w \notin broken)
 
 ------------------------------------------------------------------------------
 (* Design-level checks *)
@@ -633,7 +671,7 @@ ContractStep ==
       [] e.e = "updatomic" -> C!UpdAtomic
       [] e.e = "entries" -> C!Entries
       [] e.e = "setib" -> C!SetIB(e.w, e.s)
-      [] e.e = "startcall" -> C!StartCall(e.c, ib, e.s, e.p)
+      [] e.e = "startcall" -> C!StartCall(e.c, C!Bad, e.s, e.p)
       [] e.e = "procstart" -> C!ProcStart(e.c, e.w)
       [] e.e = "startfailed" -> C!StartFailed(e.c)
       [] e.e = "exit" -> C!ProcExit(e.c, e.w)
@@ -658,8 +696,6 @@ TypeOK ==
 \* bookkeeping sanity: a container is in at most one runner set unless the class kf is entered
 OneRunner == kf \/ \A c \in Ctrs : Cardinality({w \in Wk : c \in Runners(w)}) <= 1
 
-\* a process the pool knows nothing about exists only after a restart (until the probe) or
-\* after its runner was abandoned
 ------------------------------------------------------------------------------
 (* Named budgets for the configuration files (cfg: B <- Name) *)
 Bud(r, cr, u, bk, af, oi) == [restart |-> r, crash |-> cr, user |-> u, brk |-> bk, apifail |-> af, opib |-> oi]
@@ -668,6 +704,7 @@ BCrash   == Bud(0, 1, 1, 0, 0, 0)
 BRestart == Bud(1, 1, 0, 0, 0, 0)
 BSmall   == Bud(1, 1, 1, 0, 0, 0)
 BFaults  == Bud(1, 1, 1, 1, 1, 1)
+BLive2   == Bud(1, 1, 0, 1, 0, 0)
 
 ------------------------------------------------------------------------------
 (* Scenario emission: the sequence of steps of a behaviour *)
